@@ -82,6 +82,7 @@ structure Machine where
   root : SNode
   maxIterations : Nat
   customIds : List (String × Path)
+  ctx0 : List (String × Int) := []       -- integer-valued entries of the initial `context`
 deriving Inhabited
 
 def Machine.idOf (m : Machine) (p : Path) : String :=
